@@ -11,7 +11,8 @@ ASSUME = [
 ]
 KEYS = {"bytes-wrong", "bytes-missing", "eof-early", "eof-missing", "read-blocked", "accept-blocked", "call-blocked",
         "session-died", "session-not-closed", "conn-not-closed", "count-mismatch", "open-on-closed", "accept-on-closed",
-        "open-refused", "accept-failed", "write-refused", "write-after-close", "close-blocked:accept-backlog-full"}
+        "open-refused", "accept-failed", "write-refused", "write-after-close", "close-blocked:accept-backlog-full",
+        "panic", "open-stream-on-closed-session"}
 RULE = ("behaviours of MuxGen with connection resets, active session closes by either side, the inactivity timer of one endpoint, "
         "parked Read/Accept calls, and (feature gates) goroutines parked at the labelled schedule points of OpenStream, of new-stream "
         "reception, of the timer and of AddConnection while other steps run; exhaustive BFS for small constants, TLC -simulate beyond; "
@@ -59,8 +60,17 @@ def backlog(ctx):
     if res["stats"].get("inconclusive"):
         raise lib.Inconclusive("backlog scenario: Close blocked without a visible lock cycle: %s" % res.get("notes"))
     ctx.log("backlog scenario: %d violations" % len(res.get("violations", [])))
-    return {"evaluations": res["evaluations"], "distinct_nontrivial": res["distinct_nontrivial"], "samples": res["samples"][:1],
-            "traces": res["evaluations"]}
+    # a frame of a new stream taken in while the session closes (deviation RecvCheckThenAct must be refuted by TLC)
+    neg = lib.run_tlc(ctx, "Mux", "Mux_data.cfg", mx.cfg(nc=2, ns=1, units=1, maxwrite=1, feat='"sessclose","fault"',
+                                                        dev='"RecvCheckThenAct"', extrainv="Teardown"),
+                      tag="mc_recvcheck_neg", expect_violation=True)
+    if neg.ok:
+        raise lib.Inconclusive("Mux: RecvCheckThenAct no longer yields a counter-example (vacuity)")
+    race = lib.run_go(ctx, "multiplex", "TestVerifMuxRecvCloseRace", timeout=900)
+    lib.collect_go(ctx, race, died_key="panic")
+    ctx.log("recv-vs-close race: %d rounds, %d violations" % (race["stats"].get("rounds", 0), len(race.get("violations", []))))
+    return {"evaluations": res["evaluations"] + race["evaluations"], "distinct_nontrivial": res["distinct_nontrivial"] + race["distinct_nontrivial"],
+            "samples": res["samples"][:1] + race["samples"][:1], "traces": res["evaluations"] + race["evaluations"]}
 
 
 replay = muxprop.replay_file
